@@ -105,6 +105,10 @@ structure Snap where
   hkRunning : Bool := false
   hkAfter : Nat := 0
   now : Nat := 0
+  /-- number of key objects / value objects alive (instrumented types in the harness; object
+  identities tracked in the models) -/
+  liveK : Nat := 0
+  liveV : Nat := 0
   deriving Repr, Inhabited
 
 inductive Obs where
